@@ -246,7 +246,8 @@ class G:
              "having": ({"k": "cmp", "o": r.choice([">", ">=", "<"]), "l": {"k": "agg", "n": "COUNT", "a": {"k": "const", "v": 1}, "distinct": False},
                          "r": {"k": "const", "v": r.randint(0, 3)}} if grouped and r.random() < 0.4 else None),
              "order": [], "limit": None, "offset": None, "srcs": None}
-        if not single and r.random() < 0.5:
+        # (the single-column subquery of an IN list may be ordered and cut as well: ORDER BY + LIMIT, LIMIT + OFFSET, OFFSET alone)
+        if (not single and r.random() < 0.5) or (single and r.random() < 0.35):
             for _ in range(r.randint(1, 2)):
                 it = r.choice(sel)
                 if it.get("window"):
@@ -255,10 +256,13 @@ class G:
                 if (oe["k"] != "selref" and not has_col(oe)) or (oe["k"] == "selref" and not has_col(sel[oe["i"]]["e"])):
                     oe = self.col(srcs) if not grouped else r.choice(group)
                 q["order"].append([oe, r.choice(["ASC", "DESC", None])])
-        if allow_limit and not single and r.random() < 0.3:
-            q["limit"] = r.randint(0, 6)
-            if r.random() < 0.5:
-                q["offset"] = r.randint(0, 4)
+        if allow_limit and ((not single and r.random() < 0.3) or (single and q["order"] and r.random() < 0.7)):
+            if r.random() < 0.2:
+                q["offset"] = r.randint(0, 4)  # OFFSET alone
+            else:
+                q["limit"] = r.randint(0, 6)
+                if r.random() < 0.5:
+                    q["offset"] = r.randint(0, 4)
         # a total order (unique key of every plain-table source appended) where it can be arranged: then rows AND order are compared
         plain = all(s_["k"] == "table" for s_ in srcs)
         if (q["order"] or q["limit"] is not None) and plain and not grouped and not q["distinct"] and not any(j["how"] == "left" for j in joins):
@@ -776,6 +780,11 @@ def run_case(case, mon):
     except Exception as e:
         mon.inconc("reference writer failed: %r" % e)
         return
+    if " IN (SELECT" in ref:
+        import re as _re
+        for m_ in _re.finditer(r" IN \(SELECT [^()]* ORDER BY [^()]*? (LIMIT -1 OFFSET|LIMIT \d+ OFFSET|LIMIT \d+)", ref):
+            mon.count("in_subqueries_ordered_and_cut")
+            mon.add("in_subquery_cuts", "offset-alone" if "-1" in m_.group(1) else ("limit+offset" if "OFFSET" in m_.group(1) else "limit"))
     try:
         if rnd.random() < 0.2:
             mon.count("programs_started_from_table_shortcuts")
@@ -894,4 +903,4 @@ def cases(tier, seed, shard, nshards):
 
 
 def FLOORS(tier):
-    return {"programs": 3000, "bytecode_identical": 500, "executed_pairs": 500, "ordered_sequences_compared": 100}
+    return {"programs": 3000, "bytecode_identical": 500, "executed_pairs": 500, "ordered_sequences_compared": 100, "in_subqueries_ordered_and_cut": 20}
